@@ -22,6 +22,7 @@ func runC08Gaps2(c *eng.Ctx) {
 	c08g2Caps(c)
 	c08g2Registered(c)
 	c08g2CacheOwner(c)
+	cacheLruUnderKeyLock(c, "C08.5")
 	c09g2TrackerBookkeeping(c, "C08.7")
 	raftTrimBoundSkip(c, "C08.7")
 }
@@ -526,4 +527,135 @@ func c08g2CacheOwner(c *eng.Ctx) {
 		}
 		c.Floor(nil, "writers of "+fld, len(ws), 1)
 	}
+}
+
+// cacheLruUnderKeyLock (R9, shared by C08.5 and C13.5): the LRU of a physical
+// cache is mutated only while the per-key lock of the SAME cache for the SAME
+// key is held - the write lock for a removal, the write or read lock for an
+// insertion (a plain Get holds the read lock across miss -> backend read ->
+// insert, so a removal that does not take the write lock can slip in between
+// and the reader re-installs the old value). Purge needs every lock of the
+// table. A mutation with no such lock is a violation, not a vacuous pass.
+func cacheLruUnderKeyLock(c *eng.Ctx, clause string) {
+	const lruPat = `TwoQueueCache\[string, \*physical\.Entry\]\)\.(Add|Remove|Purge)$`
+	nRemove, nAdd, nPurge := 0, 0, 0
+	var fns []*ssa.Function
+	for _, f := range c.P.Funcs {
+		if eng.InPkg(f, "physical") && len(eng.Calls(f, lruPat)) > 0 {
+			fns = append(fns, f)
+		}
+	}
+	sort.Slice(fns, func(i, j int) bool { return fns[i].String() < fns[j].String() })
+	// the LockForKey call a mutex operand belongs to
+	lockForKeyOf := func(recv ssa.Value) *ssa.Call {
+		for i := 0; i < 4 && recv != nil; i++ {
+			switch x := recv.(type) {
+			case *ssa.FieldAddr:
+				recv = x.X
+			case *ssa.Call:
+				if strings.HasPrefix(eng.CalleeName(x.Common()), "locksutil.LockForKey") {
+					return x
+				}
+				return nil
+			default:
+				return nil
+			}
+		}
+		return nil
+	}
+	for _, f := range fns {
+		for _, mu := range eng.Calls(f, lruPat) {
+			c.Clause("R9", clause)
+			a := mu.Common().Args
+			op := mu.Common().StaticCallee().Name()
+			owner := strings.TrimSuffix(eng.ExprDeep(a[0]), ".lru")
+			if op == "Purge" {
+				nPurge++
+				var all []ssa.Instruction
+				for _, lk := range eng.Calls(f, `^sync\.\(\*RWMutex\)\.Lock$`) {
+					if r := eng.ExprDeep(lk.Common().Args[0]); strings.HasPrefix(r, owner+".locks[") && strings.Contains(r, "rangeindex") {
+						all = append(all, lk)
+					}
+				}
+				site := "purge of the LRU under every per-key lock"
+				// the purge is reached only over the exit of a loop over the lock table whose every iteration locks its entry
+				var exits []eng.Edge
+				for _, l := range c07Loops(f) {
+					if !strings.Contains(eng.Normalize(l.If.Cond).Base, "len("+owner+".locks)") {
+						continue
+					}
+					again := func(in ssa.Instruction) bool { return in == ssa.Instruction(l.If) }
+					if eng.Reach(eng.Query{Fn: f, StartEdges: []eng.Edge{l.Body}, Barriers: all, Target: again}) == nil {
+						exits = append(exits, l.Exit)
+					}
+				}
+				if len(all) == 0 || len(exits) == 0 {
+					c.Violation(f, site, mu.Pos(), "the LRU of "+owner+" is purged without a loop that locks every entry of "+owner+".locks", nil)
+				} else {
+					c.Cut(f, "purge of the LRU", []ssa.Instruction{mu}, eng.Guard{Desc: "exit of the loop locking every entry of " + owner + ".locks", Edges: exits}, nil)
+				}
+				continue
+			}
+			key := eng.ExprDeep(a[1])
+			site := "LRU " + strings.ToLower(op) + " under the per-key lock of the same cache and key"
+			if op == "Remove" {
+				nRemove++
+			} else {
+				nAdd++
+			}
+			var acq []ssa.CallInstruction
+			recvs := map[string]bool{}
+			wrong := ""
+			for _, lk := range eng.Calls(f, `^sync\.\(\*RWMutex\)\.(Lock|RLock)$`) {
+				lfk := lockForKeyOf(lk.Common().Args[0])
+				if lfk == nil {
+					continue
+				}
+				if lk.Common().StaticCallee().Name() == "RLock" && op == "Remove" {
+					wrong = "only the read lock is taken"
+					continue
+				}
+				t, k := eng.ExprDeep(lfk.Call.Args[0]), eng.ExprDeep(lfk.Call.Args[1])
+				if t != owner+".locks" {
+					wrong = "the lock comes from " + t
+					continue
+				}
+				if k != key {
+					wrong = "the lock is for key " + k
+					continue
+				}
+				acq = append(acq, lk)
+				recvs[eng.ExprDeep(lk.Common().Args[0])] = true
+			}
+			if len(acq) == 0 {
+				why := "no per-key lock is taken in this function"
+				if wrong != "" {
+					why = wrong
+				}
+				c.Violation(f, site, mu.Pos(), op+"("+key+") on the LRU of "+owner+" without holding LockForKey("+owner+".locks, "+key+"): "+why+"; a reader that missed the LRU can re-install the value it read before the change", nil)
+				continue
+			}
+			isAcq := func(cl ssa.CallInstruction) bool {
+				for _, x := range acq {
+					if x == cl {
+						return true
+					}
+				}
+				return false
+			}
+			isRel := func(cl ssa.CallInstruction) bool {
+				g := cl.Common().StaticCallee()
+				return g != nil && (g.Name() == "Unlock" || g.Name() == "RUnlock") && len(cl.Common().Args) > 0 && recvs[eng.ExprDeep(cl.Common().Args[0])]
+			}
+			if eng.MustHold(f, isAcq, isRel)(mu) {
+				c.OK(f, site, mu.Pos(), "LockForKey("+owner+".locks, "+key+") held")
+			} else {
+				c.Violation(f, site, mu.Pos(), op+"("+key+") on the LRU of "+owner+" is reachable without LockForKey("+owner+".locks, "+key+") being held", nil)
+			}
+		}
+	}
+	c.Clause("R9", clause)
+	c.Floor(nil, "LRU removals of the physical cache", nRemove, 4)
+	c.Floor(nil, "LRU insertions of the physical cache", nAdd, 3)
+	c.Floor(nil, "LRU purges of the physical cache", nPurge, 1)
 }
